@@ -23,7 +23,7 @@ ASSUMPTIONS = ['process spawning and file-descriptor inheritance by subprocess.c
                'captured files; valjean flushes its own echo line before each spawn)',
                'scripted commands are deterministic']
 
-NAMES = ['', 'task', 'my task', 'tâche-é', 'a.b', '..x', 'x/y', '/abs', 'nul\x00char', '.', '..', 'a' * 40, 'T', ' lead', 'x\ny']
+NAMES = ['', 'task', 'task ', ' task', 'my task', '.. ', ' ', 'tâche-é', 'a.b', '..x', 'x/y', '/abs', 'nul\x00char', '.', '..', 'a' * 40, 'T', ' lead', 'x\ny']
 TOKENS = ['out', 'E', 'spam and eggs', 'x' * 50, '', 'ü', 'line1\\nline2', '%%']
 
 
@@ -33,7 +33,7 @@ def gen_cli(rng, allow_spawn_error=True):
         return {'kind': 'missing'}
     if allow_spawn_error and r < 0.12:
         return {'kind': 'noexec'}
-    code = 0 if rng.random() < 0.7 else rng.choice([1, 2, 3, 127, 255, 42])
+    code = 0 if rng.random() < 0.7 else rng.choice([1, 2, 3, 127, 255, 42, -9, -15, -2])   # negative: killed by a signal
     return {'kind': 'sh', 'out': rng.choice(TOKENS) + str(rng.randrange(10)), 'err': rng.choice(TOKENS), 'code': code,
             'order': rng.random() < 0.5}
 
@@ -74,6 +74,8 @@ def real_cli(cli, scratch):
     out = f"printf '%s' {shlex.quote(cli['out'])}"
     err = f"printf '%s' {shlex.quote(cli['err'])} >&2"
     body = f'{out}; {err}' if cli['order'] else f'{err}; {out}'
+    if cli['code'] < 0:
+        return ['/bin/sh', '-c', f"{body}; kill -{-cli['code']} $$"]
     return ['/bin/sh', '-c', f"{body}; exit {cli['code']}"]
 
 
